@@ -16,6 +16,7 @@ trees:
   ['name', i]                         defined name i (scalar if single cell, else like 'rng')
   ['bin', op, x, y]  ['neg', x]  ['fn', NAME, arg, ...]
   ['uni', a, b]                      bracketed union of two references as ONE aggregator argument
+  ['isect', rngA, rngB]              intersection (blank operator) of two overlapping rectangles of one sheet, as ONE aggregator argument
   ['anchor', [b,s,r,c], rect]        spill reference C1# to the array formula anchored at that cell (aggregator argument; files only)
   ['undef', NAME]                    a name nobody defines (evaluates to UNSURE here)
   ['fname', i, tree]                 name i of spec['fnames'], defined by the formula `tree` (carried along at every use)
@@ -135,6 +136,9 @@ def flat_args(env, args):
             out += [(v, True) for row in env.rect_values(rect) for v in row]
         elif t == 'ref':
             out.append((env.get(a[1]), True))
+        elif t == 'isect':
+            (b, s_, r1, c1, r2, c2), (_, _, R1, C1, R2, C2) = a[1][1], a[2][1]
+            out += [(v, True) for row in env.rect_values((b, s_, max(r1, R1), max(c1, C1), min(r2, R2), min(c2, C2))) for v in row]
         elif t == 'anchor':
             out += [(v, True) for row in env.rect_values(a[2]) for v in row]  # the whole area of the array formula anchored there
         elif t == 'uni':
@@ -412,6 +416,10 @@ def refs_of(t, names=None, acc=None):
         refs_of(t[2], names, acc)
     elif k == 'anchor':
         acc.append(('rect', tuple(t[2])))
+    elif k == 'isect':
+        # the intersection of two literal rectangles is taken when the formula is compiled: the formula reads that rectangle only
+        (b, s_, r1, c1, r2, c2), (_, _, R1, C1, R2, C2) = t[1][1], t[2][1]
+        acc.append(('rect', (b, s_, max(r1, R1), max(c1, C1), min(r2, R2), min(c2, C2))))
     elif k == 'uni':
         for a in t[1:]:
             refs_of(a, names, acc)
